@@ -585,6 +585,44 @@ fn boundary_size_scenario(mon: &mut C09, case_seed: u64) {
     }
 }
 
+/// Stack-depth probes: a covenant whose execution, weighing or teardown might recurse once per level of some
+/// structure it builds, run directly (`exec`) or as the covenant of a spent coin through `apply_tx` (`apply`) on
+/// the calling thread (the caller chooses its stack size; covenants of a transaction run on rayon workers).
+/// Families: `vpush-nest` / `vcons-nest` (a vector nested `size` deep), `loop-nest` (`size` nested loops).
+pub fn probe_stack(family: &str, size: u16, mode: &str) -> String {
+    use crate::refvm::{self, Op};
+    use melstructs::{BlockHeight, CoinData, CoinDataHeight, CoinID, CoinValue, TxHash};
+    let ops: Vec<Op> = match family {
+        "vpush-nest" => vec![Op::VEmpty, Op::Loop(size, 2), Op::Dup, Op::VPush],
+        "vcons-nest" => vec![Op::VEmpty, Op::Loop(size, 2), Op::Dup, Op::VCons],
+        "loop-nest" => {
+            let mut v = vec![];
+            for i in 0..size {
+                v.push(Op::Loop(1, size - i));
+            }
+            v.push(Op::Noop);
+            v
+        }
+        _ => vec![Op::Noop],
+    };
+    let bytes = refvm::encode(&ops).unwrap();
+    let cov = melvm::Covenant::from_bytes(&bytes).unwrap();
+    if mode == "exec" {
+        let w = cov.weight();
+        let r = cov.debug_execute(&[]);
+        return format!("executed: code {} bytes, weight {}, result is_some={}", bytes.len(), w, r.is_some());
+    }
+    let mut fab = Fab::new(NetID::Custom02, 1000);
+    fab.fee_multiplier = 0;
+    let id = CoinID { txhash: TxHash(tmelcrypt::hash_single(b"nest")), index: 0 };
+    fab.coins.push((id, CoinDataHeight { coin_data: CoinData { covhash: addr_of(&bytes), value: CoinValue(1000), denom: Denom::Mel, additional_data: Bytes::new() }, height: BlockHeight(999) }));
+    let db = new_db();
+    let mut st = fab.build(&db).next_unsealed();
+    let n = bytes.len();
+    let tx = Transaction { kind: TxKind::Normal, inputs: vec![id], outputs: vec![CoinData { covhash: destroy_addr(), value: CoinValue(1000), denom: Denom::Mel, additional_data: Bytes::new() }], fee: CoinValue(0), covenants: vec![Bytes::from(bytes)], data: Bytes::new(), sigs: vec![] };
+    format!("apply_tx: code {} bytes, accepted={:?}", n, st.apply_tx(&tx).is_ok())
+}
+
 pub fn run(p: &Params) -> Report {
     let total = p.n(2400, 60000);
     let mine = p.share(total);
